@@ -90,7 +90,7 @@ def pp(c, ind=2):
     if isinstance(c, Bind):
         return "(let %s := %s;\n%s%s)" % (c.pat, pp(c.rhs, ind + 2), sp, pp(c.body, ind))
     if isinstance(c, If):
-        return "(if %s then %s\n%selse %s)" % (c.cond, pp(c.a, ind + 2), sp, pp(c.b, ind + 2))
+        return "(bif %s then %s\n%selse %s)" % (c.cond, pp(c.a, ind + 2), sp, pp(c.b, ind + 2))
     if isinstance(c, Match):
         arms = "".join("\n%s| %s => %s" % (sp, p, pp(a, ind + 4)) for p, a in c.arms)
         return "(match %s with%s)" % (c.scrut, arms)
@@ -118,7 +118,7 @@ def pm(c, ind=2):
             return "(Res.bind %s (fun %s =>\n%s%s))" % (pm(c.rhs, ind + 2), c.pat, sp, pm(c.body, ind))
         return "(let %s := %s;\n%s%s)" % (c.pat, pp(c.rhs, ind + 2), sp, pm(c.body, ind))
     if isinstance(c, If):
-        return "(if %s then %s\n%selse %s)" % (c.cond, pm(c.a, ind + 2), sp, pm(c.b, ind + 2))
+        return "(bif %s then %s\n%selse %s)" % (c.cond, pm(c.a, ind + 2), sp, pm(c.b, ind + 2))
     if isinstance(c, Match):
         arms = "".join("\n%s| %s => %s" % (sp, p, pm(a, ind + 4)) for p, a in c.arms)
         return "(match %s with%s)" % (c.scrut, arms)
